@@ -121,13 +121,24 @@ class TcpConn(object):
         self._last_arrival = t
 
     def _schedule_arrival(self, t, piece):
+        pend = getattr(self, '_pending_arrival', None)
+        if pend is not None and not pend['fired'] and pend['t'] == t and \
+                not self.net.segment:
+            # back-to-back sends share a segment (unless the tape is
+            # splitting the stream anyway)
+            pend['buf'] += piece
+            return
+        pend = {'t': t, 'buf': bytearray(piece), 'fired': False}
+        self._pending_arrival = pend
+
         def arrive():
+            pend['fired'] = True
             if self.client_released:
                 return
-            self.s2c_avail += piece
-            self.s2c_delivered += len(piece)
+            self.s2c_avail += pend['buf']
+            self.s2c_delivered += len(pend['buf'])
             self.sim.dirty = True
-        self.sim.at(t, arrive, 's2c[%d]+%d' % (self.index, len(piece)))
+        self.sim.at(t, arrive, 's2c[%d]' % self.index)
 
     def server_close(self):
         """FIN after everything queued so far."""
@@ -486,6 +497,13 @@ class SimSelectModule(object):
         sim.log('select-timeout', conn.index)
         return [], [], []
 
+    # ---- poll(): same readiness model, Linux event masks
+    POLLIN, POLLPRI, POLLOUT, POLLERR, POLLHUP, POLLNVAL = 1, 2, 4, 8, 16, 32
+    POLLRDHUP = 0x2000
+
+    def poll(self):
+        return SimPoll(self)
+
     def _count_eof(self, conn):
         if not conn.s2c_avail and (conn.s2c_eof or conn.local_shutdown):
             lim = self._net.eof_read_limit
@@ -494,6 +512,91 @@ class SimSelectModule(object):
                 self._net.sim.violate('spin-after-eof',
                                       {'conn': conn.index, 'select': True},
                                       fatal=True)
+
+
+class SimPoll(object):
+    """select.poll() object over simulated sockets (tcp_poll() semantics:
+    IN for data or a received FIN/RST/local read shutdown, ERR while a reset
+    has not been reported yet, HUP once both directions are shut or the
+    connection was reset, NVAL for a descriptor that is not open)."""
+
+    def __init__(self, mod):
+        self._mod = mod
+        self._reg = {}
+
+    @staticmethod
+    def _fd(f):
+        fd = f.fileno() if hasattr(f, 'fileno') else f
+        if not isinstance(fd, int) or fd < 0:
+            raise ValueError('file descriptor cannot be a negative '
+                             'integer (%r)' % (fd,))
+        return fd
+
+    def register(self, f, eventmask=1 | 2 | 4):
+        self._reg[self._fd(f)] = eventmask
+
+    def modify(self, f, eventmask):
+        fd = self._fd(f)
+        if fd not in self._reg:
+            raise OSError(errno.ENOENT, 'No such file or directory')
+        self._reg[fd] = eventmask
+
+    def unregister(self, f):
+        del self._reg[self._fd(f)]
+
+    def _events(self):
+        M = self._mod
+        net = M._net
+        out = []
+        for fd, mask in self._reg.items():
+            sock = net.fds.get(fd)
+            if sock is None:
+                out.append((fd, M.POLLNVAL))
+                continue
+            conn = sock.conn
+            if conn is None:
+                # not connected: writable + hung up, as on Linux
+                ev = (M.POLLOUT & mask) | M.POLLHUP
+                out.append((fd, ev))
+                continue
+            ev = 0
+            rd_shut = conn.s2c_eof or conn.s2c_rst or conn.local_shutdown
+            wr_shut = conn.local_shutdown or conn.local_wr_shutdown or \
+                conn.s2c_rst
+            if conn.s2c_avail or rd_shut:
+                ev |= M.POLLIN & mask
+            if rd_shut:
+                ev |= M.POLLRDHUP & mask
+            if conn.s2c_rst and conn.rst_err:
+                ev |= M.POLLERR
+            if conn.s2c_rst or (rd_shut and wr_shut):
+                ev |= M.POLLHUP
+            if not wr_shut:
+                ev |= M.POLLOUT & mask
+            if ev:
+                out.append((fd, ev))
+        return out
+
+    def poll(self, timeout=None):
+        M = self._mod
+        net, sim = M._net, M._net.sim
+        sim.yield_point(19)
+        sim.current.io_ops += 1
+        conns = [net.fds[fd].conn for fd in self._reg
+                 if fd in net.fds and net.fds[fd].conn is not None]
+        ev = self._events()
+        if not ev and not (timeout is not None and timeout <= 0):
+            to = None if timeout is None else int(timeout * 1000)
+            sim.stat('select-wait')
+            sim.block(lambda: bool(self._events()), to, reason='poll')
+            ev = self._events()
+            if not ev:
+                sim.stat('select-timeout')
+        for c in conns:
+            if ev:
+                M._count_eof(c)
+        sim.log('poll', tuple(e for _fd, e in ev))
+        return ev
 
 
 class SimTimeit(object):
